@@ -352,3 +352,9 @@ def run(ck, prog, ctx):
                 ck.ob("FIELD", nm + "/new-index", not minus1, "%s reads the length BEFORE pushing the merged set: the new index is len%s" % (nm, "" if not minus1 else " - 1 (the index of an OLD set)"), where=host.where(t.line))
             else:
                 ck.undecided("FIELD", nm + "/new-index", "no push onto `sets` ordered with the length read", where=host.where(t.line))
+
+    # ---- the dendrogram's iterators answer each protocol method with the inner iterator's SAME method
+    ck.rule("SIBLING", "an iterator wrapper's next / next_back / len / size_hint delegates to the same method of the inner iterator (DESIGN 3.15)")
+    from engines import check_iterator_delegations
+    check_iterator_delegations(ck, "SIBLING", prog, r"^src/stats/linkage/cluster\.rs$", floor=2)
+    check_iterator_delegations(ck, "SIBLING", prog, r"^src/utils\.rs$")
